@@ -60,11 +60,11 @@ Proof.
     split; [cbn; lia|].
     destruct (Z.leb_spec (p - 1) (ps_next st)) as [L|L]; cbv iota.
     + split; [|split; [lia|]].
-      * split; [|cbn [ps_next]; lia]. cbn [ps_prios ps_next]. intros k v H. apply prio_get_set_inv in H.
+      * split; [|cbn [ps_next]; unfold i32_max; lia]. cbn [ps_prios ps_next]. unfold i32_max. intros k v H. apply prio_get_set_inv in H.
         destruct H as [(-> & ->)|(_ & H)]; [lia|]. specialize (PM _ _ H). unfold i32_max in PM. lia.
       * intros I. apply in_app_or in I. destruct I as [I|[I|[]]]; [apply repeat_spec in I|]; discriminate.
     + split; [|split; [lia|]].
-      * split; [|cbn [ps_next]; lia]. cbn [ps_prios ps_next]. intros k v H. apply prio_get_set_inv in H.
+      * split; [|cbn [ps_next]; unfold i32_max; lia]. cbn [ps_prios ps_next]. unfold i32_max. intros k v H. apply prio_get_set_inv in H.
         destruct H as [(-> & ->)|(_ & H)]; [lia|]. specialize (PM _ _ H). unfold i32_max in PM. lia.
       * intros I. apply in_app_or in I. destruct I as [I|[I|[]]]; [apply repeat_spec in I|]; discriminate.
   - (* known sample, no boundary *)
@@ -79,7 +79,7 @@ Proof.
     cbn [fst snd ps_prios ps_next ps_seq ps_count ps_rnd]. split; [reflexivity|]. split.
     { cbn [flat_map ops_of_cmd app]. rewrite pops_app, pops_repeat_push, ?app_nil_r. reflexivity. }
     split; [cbn; lia|]. split; [|split; [lia|]].
-    + split; [|cbn [ps_next]; lia]. cbn [ps_prios ps_next]. intros k v H. apply prio_get_set_inv in H.
+    + split; [|cbn [ps_next]; unfold i32_max; lia]. cbn [ps_prios ps_next]. unfold i32_max. intros k v H. apply prio_get_set_inv in H.
       destruct H as [(-> & ->)|(ne & H)]; [lia|]. apply prio_get_set_inv in H.
       destruct H as [(-> & ->)|(_ & H)]; [lia|]. specialize (PM _ _ H). unfold i32_max in PM. lia.
     + intros I. apply in_app_or in I. destruct I as [I|[I|[]]]; [apply repeat_spec in I|]; discriminate.
@@ -89,7 +89,7 @@ Proof.
     exists [Contig sz (ps_next st) (ps_seq st)].
     cbn [fst snd ps_prios ps_next ps_seq ps_count ps_rnd]. split; [reflexivity|]. split; [reflexivity|].
     split; [cbn; lia|]. split; [|split; [lia|]].
-    + split; [|cbn [ps_next]; lia]. cbn [ps_prios ps_next]. intros k v H. apply prio_get_set_inv in H.
+    + split; [|cbn [ps_next]; unfold i32_max; lia]. cbn [ps_prios ps_next]. unfold i32_max. intros k v H. apply prio_get_set_inv in H.
       destruct H as [(-> & ->)|(_ & H)]; [lia|]. specialize (PM _ _ H). unfold i32_max in PM. lia.
     + intros [I|[]]. discriminate.
 Qed.
